@@ -392,6 +392,12 @@ def wrapup_rule(repo, res):
         res.check(ok, f"unit-def:{kind}:{str(detail)[:40]}", fn.where(node), "the unit attached to the result must come from the ufunc's unit rule", found=(kind, detail), rid=r4)
     if n_defs < 4:
         raise AnalysisError(f"{fn.where()}: definitions of `unit` not found")
+    # binary ufuncs on operands in different units: the common-unit block is entered whenever the units differ by
+    # value, so re-expressing one input cannot switch the conversion off (same analysis as C04-R2)
+    from rules.ufunc import differ_entry
+
+    ok_e, bad_e = differ_entry(ua)
+    res.check(ok_e, "common-unit-entry", fn.where(ua.differ_if), "np.add / np.maximum / comparisons ... skip the conversion to a common unit for some operands whose units differ: the entry test has a conjunct that can be false although scale or dimension differ", "only comparisons of the two unit objects (is not / !=)", bad_e, rid=r4)
 
 
 MUTANTS = [
@@ -418,4 +424,6 @@ MUTANTS = [
     Mutant("twin-rename", AF, "linalg_solve", "au", "unit_a", (), count=2, benign=True),
     Mutant("twin-commute", AF, "kron", 'getattr(a, "units", NULL_UNIT) * getattr(b, "units", NULL_UNIT)', 'getattr(b, "units", NULL_UNIT) * getattr(a, "units", NULL_UNIT)', (), benign=True),
     Mutant("twin-hoist", AF, "var", "return np.var._implementation(np.asarray(a), *args, **kwargs) * a.units**2", "u2 = a.units**2\n    return np.var._implementation(np.asarray(a), *args, **kwargs) * u2", (), benign=True),
+    Mutant("common-unit-entry-by-spelling", ARR, "unyt_array.__array_ufunc__", "if u0 is not u1 and u0 != u1:", "if u0 is not u1 and u0.expr != u1.expr:", ("C07-R4",)),
+    Mutant("entry-without-identity-shortcut", ARR, "unyt_array.__array_ufunc__", "if u0 is not u1 and u0 != u1:", "if u0 != u1:", (), benign=True),
 ]
